@@ -51,9 +51,33 @@ def panic_rule(repo, mir, reach, res, rule="PANIC"):
     for r in t["site"]:
         rows[(r["fn"], r["kind"], r["what"], r["producer"], r["mac"])] = r
     classes = collections.Counter()
+    # code motion: a site (or some of the sites of a row) that left function f and shows up with the same signature
+    # (kind, callee, producer, macro) in another function of the same module was moved, not added.  Pool the surplus / deficit per
+    # (module, signature) and let a surplus be paid from a deficit.
+    def sig(k):
+        return (k[0].split("::")[0], k[1], k[2], k[3], k[4])
+
+    deficit = collections.Counter()
+    for k, r in rows.items():
+        have = groups.get(k, 0)
+        if have < r["count"]:
+            deficit[sig(k)] += r["count"] - have
+    moved_from = {}
+    for k, r in rows.items():
+        if groups.get(k, 0) < r["count"]:
+            moved_from.setdefault(sig(k), []).append(r)
     for k, n in sorted(groups.items()):
         r = rows.get(k)
         loc = where[k][0]
+        surplus = n - (r["count"] if r is not None else 0)
+        if surplus > 0 and deficit.get(sig(k), 0) >= surplus:
+            deficit[sig(k)] -= surplus
+            src = moved_from[sig(k)][0]
+            res.ok(rule, key_str(k), f"{surplus} site(s) with the signature of a tabled row of {src['fn']} ({src['class']}: {src['why'][:120]}) now stand in {k[0]}: moved code, the row's argument travels with it", loc)
+            if r is not None:
+                classes[r["class"]] += r["count"]
+                res.ok(rule, key_str(k) + ":tabled", f"{r['count']}x {r['class']}: {r['why']}", loc)
+            continue
         if r is None:
             res.bad(rule, key_str(k), f"panic-capable site with no row in tables/panic_sites.toml: {k[1]} {k[2]} in {k[0]}" + (f" (value produced by {k[3]})" if k[3] else "") + f" at {where[k]}", loc)
             continue
@@ -395,7 +419,7 @@ def run(repo, res, tier):
     c10.outfile_rule(repo, res)  # `having written a complete script`: the destination holds this run's bytes only
     from vlib import rules_skips as SK, tables
     n_sk = SK.skips_rule(repo, res, tables.load("skips")["row"], only={"check::get_nonterminals_resolution_order", "check::traverse_nonterminal_dependencies_dfs", "check::get_not_depended_on_nonterminals"})
-    res.floor("SKIPS", n_sk, 6)
+    res.floor("SKIPS", n_sk, 3)
     exit_rule(repo, mir, reach, inv, res)
     rec_rule(repo, mir, reach, res)
     ord_rule(repo, mir, res)
